@@ -22,7 +22,10 @@ RULE = (
 ASSUMPTIONS = ["unittest.mock itself is trusted"]
 UNIT_TIMEOUT = {"quick": 200, "thorough": 600}
 
-TARGETS = ["fn", "meth", "cmeth", "smeth", "const"]
+# sub_*: the attribute is patched on a class that only INHERITS it; inst_meth: on one instance (module attribute INST).
+# In both the patched name is not in the owner's own __dict__ before the patch and must not be afterwards.
+TARGETS = ["fn", "meth", "cmeth", "smeth", "const", "sub_meth", "sub_cmeth", "sub_smeth", "inst_meth"]
+ABSENT = object()
 REPLS = ["default", "function", "bound", "callable_obj", "explicit_mock", "new_callable", "noncallable", "classmethod_fn", "staticmethod_fn", "spec_set"]
 ACTS = ["with", "decorator", "classdeco", "startstop"]
 EXITS = ["normal", "exception", "stopall"]
@@ -62,6 +65,7 @@ def make_module():
     mod.fn = fn
     mod.Cls = Cls
     mod.Sub = Sub
+    mod.INST = Cls()
     sys.modules["c19_mod"] = mod
     return mod
 
@@ -69,6 +73,10 @@ def make_module():
 def owner_and_name(mod, target):
     if target == "fn":
         return mod, "fn", "c19_mod.fn"
+    if target.startswith("sub_"):
+        return mod.Sub, target[4:], "c19_mod.Sub." + target[4:]
+    if target == "inst_meth":
+        return mod.INST, "meth", "c19_mod.INST.meth"
     name = {"meth": "meth", "cmeth": "cmeth", "smeth": "smeth", "const": "CONST"}[target]
     return mod.Cls, name, "c19_mod.Cls." + name
 
@@ -78,6 +86,15 @@ def accessor(mod, target):
     through the owner, through a subclass and through the owner again during the same patch."""
     if target == "fn":
         return [("module", lambda: mod.fn, None)]
+    if target == "sub_meth":
+        sub = mod.Sub()
+        return [("subclass instance", lambda: sub.meth, mod.Sub), ("subclass instance again", lambda: sub.meth, mod.Sub)]
+    if target in ("sub_cmeth", "sub_smeth"):
+        sub = mod.Sub()
+        nm = target[4:]
+        return [("subclass", lambda: getattr(mod.Sub, nm), mod.Sub), ("subclass instance", lambda: getattr(sub, nm), mod.Sub), ("subclass again", lambda: getattr(mod.Sub, nm), mod.Sub)]
+    if target == "inst_meth":
+        return [("the instance", lambda: mod.INST.meth, mod.Cls), ("the instance again", lambda: mod.INST.meth, mod.Cls)]
     if target == "meth":
         inst = mod.Cls()
         sub = mod.Sub()
@@ -242,10 +259,17 @@ def run_cell(target, repl, act, exit_path, comp, entry):
     asynq.scheduler.reset()
     mod = make_module()
     owner, name, dotted = owner_and_name(mod, target)
-    original = owner.__dict__[name]
+    original = owner.__dict__.get(name, ABSENT)
+    defining = mod.Cls if (target.startswith("sub_") or target == "inst_meth") else None
+    def_original = defining.__dict__[name] if defining is not None else None
     get = accessor(mod, target)
     viol = []
     nconv = [0]
+
+    def restored():
+        if owner.__dict__.get(name, ABSENT) is not original:
+            return False
+        return defining is None or defining.__dict__[name] is def_original
 
     shared_kw = {}
     entry_ok = []
@@ -355,18 +379,18 @@ def run_cell(target, repl, act, exit_path, comp, entry):
             p = None
         if p is not None:
             use(p, rec)
-            if owner.__dict__.get(name) is not original:
+            if not restored():
                 viol.append(("original-not-restored", {"after": exit_path, "activation": act, "composition": comp}))
             if comp == "same_patcher_again":
                 # the very same patcher object is activated a second time (start/stop/start, a decorated function
                 # called twice, one patch object in two with-blocks)
                 use(p, rec)
-                if owner.__dict__.get(name) is not original:
+                if not restored():
                     viol.append(("original-not-restored", {"after": exit_path + " (second activation of the same patcher)", "activation": act}))
             if comp == "sequential":
                 rec3 = Recorder()
                 use(mk(rec3), rec3)
-                if owner.__dict__.get(name) is not original:
+                if not restored():
                     viol.append(("original-not-restored", {"after": exit_path + " (second, sequential patch)", "activation": act}))
     except BaseException as e:
         viol.append(("cell-crashed", {"exc": exc_desc(e)}))
@@ -392,7 +416,7 @@ def cells():
                             continue  # those create a fresh mock per patch; nothing to share
                         if r == "spec_set" and comp in ("nested",):
                             continue
-                        if r in ("classmethod_fn", "staticmethod_fn") and t in ("fn", "const"):
+                        if r in ("classmethod_fn", "staticmethod_fn") and t in ("fn", "const", "inst_meth"):
                             continue  # descriptors are only meaningful as class attributes
                         for entry in ENTRIES:
                             out.append((t, r, a, e, comp, entry))
